@@ -352,6 +352,21 @@ fn all_paths(level: &J, prefix: &mut Vec<String>, out: &mut Vec<Vec<String>>) {
     }
 }
 
+/// does the path lead through a command under `hide`?
+fn path_hidden(level: &J, path: &[String]) -> bool {
+    let mut lvl = level;
+    for name in path {
+        let Some(c) = lvl["tail"]["cmds"].as_array().and_then(|cs| cs.iter().find(|c| c["names"][0] == name.as_str())) else {
+            return false;
+        };
+        if c["hidden"].as_bool().unwrap_or(false) {
+            return true;
+        }
+        lvl = &c["level"];
+    }
+    false
+}
+
 /// C12/C16: render help of every command level and the three documentation formats, as token records
 fn cmd_render(args: &[String]) -> i32 {
     let defs_path = arg_val(args, "--defs").expect("--defs");
@@ -428,7 +443,8 @@ fn cmd_render(args: &[String]) -> i32 {
                         };
                         writeln!(w, "{}", json!({"def": def["id"], "path": [], "kind": format!("{}-events", kind),
                             "class": "doc", "events": events})).unwrap();
-                        for p in &paths {
+                        // (the documentation describes the levels reachable through visible commands)
+                        for p in paths.iter().filter(|p| !path_hidden(&def, p)) {
                             writeln!(w, "{}", json!({"def": def["id"], "path": p, "kind": kind, "class": "doc",
                                 "items": [], "all": toks, "order": {"descr":0,"usage":0,"header":0,"items":0,"footer":0},
                                 "text": if p.is_empty() { text.clone() } else { String::new() }})).unwrap();
